@@ -643,6 +643,52 @@ def _module_value(p, func: Func, name: str):
 # the encoder factory under its four configurations
 # ---------------------------------------------------------------------------
 
+def _cosmetic_params(fac: Func, enc: Func, extras: List[str]) -> Dict[str, ast.AST]:
+    """Parameters of the encoder factory beyond (is_value, check_is_escaped) -> their default expression.  Accepted only
+    when they have a default and, by def-use, reach nothing but attribute stores on the returned nested function
+    (`encoder.__name__ = name`) and `is None` / truth tests that guard nothing but such stores: then the configuration
+    of the encoder is a function of the first two parameters alone.  Anything else is an idiom this rule cannot read."""
+    if not extras:
+        return {}
+    a = fac.node.args
+    if a.vararg or a.kwarg or a.kwonlyargs or a.posonlyargs:
+        raise UnknownIdiom('%s: signature %s' % (fac.qual, short(a, 80)))
+    names = [x.arg for x in a.args]
+    out: Dict[str, ast.AST] = {}
+    for nm in extras:
+        k = names.index(nm) - (len(names) - len(a.defaults))
+        if k < 0:
+            raise UnknownIdiom('%s takes %s: the additional parameter %s has no default' % (fac.qual, names, nm))
+        out[nm] = a.defaults[k]
+    parent = enclosing_map(fac.node)
+
+    def cosmetic_store(s) -> bool:
+        return isinstance(s, ast.Assign) and all(isinstance(t, ast.Attribute) and isinstance(t.value, ast.Name) and t.value.id == enc.node.name
+                                                 for t in s.targets)
+
+    def cosmetic_block(stmts) -> bool:
+        return all(cosmetic_store(s) or isinstance(s, ast.Pass) or (isinstance(s, ast.If) and cosmetic_block(s.body) and cosmetic_block(s.orelse))
+                   for s in stmts)
+
+    for x in ast.walk(fac.node):
+        if isinstance(x, ast.Name) and x.id in out and isinstance(x.ctx, (ast.Store, ast.Del)):
+            raise UnknownIdiom('%s re-binds its additional parameter %s' % (fac.qual, x.id))
+        if not (isinstance(x, ast.Name) and x.id in out and isinstance(x.ctx, ast.Load)):
+            continue
+        cur, up = x, parent.get(id(x))
+        while up is not None and not isinstance(up, ast.stmt):
+            cur, up = up, parent.get(id(up))
+        ok = False
+        if cosmetic_store(up) and any(y is x for y in ast.walk(up.value)):
+            ok = True
+        elif isinstance(up, ast.If) and any(y is x for y in ast.walk(up.test)) and cosmetic_block(up.body) and cosmetic_block(up.orelse):
+            ok = True
+        if not ok:
+            raise UnknownIdiom('%s takes %s: the additional parameter %s is used in %s (more than naming the returned function)' % (
+                fac.qual, names, x.id, short(up, 80)))
+    return out
+
+
 class _Factory:
     """`_create_str_encoder(is_value, check_is_escaped)` evaluated up to the
     nested encoder: closure environment, char table, allowed alphabet."""
@@ -651,12 +697,15 @@ class _Factory:
         p = run.project
         self.f = p.func(URI + '._create_str_encoder')
         params = [a.arg for a in self.f.node.args.args]
-        if len(params) != 2:
+        if len(params) < 2:
             raise UnknownIdiom('%s takes %s' % (self.f.qual, params))
-        self.p_value, self.p_check = params
+        self.p_value, self.p_check = params[:2]
         self.enc = single(list(self.f.nested.values()), 'nested encoder function', self.f.qual)
         ev = _Ev(p, self.f)
         env = {self.p_value: is_value, self.p_check: check}
+        # further parameters: only with a default, and only where they cannot take part in what the encoder decides
+        for name, dflt in _cosmetic_params(self.f, self.enc, params[2:]).items():
+            env[name] = ev.expr(dflt, {})
         try:
             ev.block(self.f.node.body, env)
             raise UnknownIdiom('%s does not return' % self.f.qual)
@@ -1078,6 +1127,11 @@ class _EncPaths:
                             return r if isinstance(op, ast.Eq) == truth else state
         if not leaf and (isinstance(e, ast.BoolOp) or (isinstance(e, ast.UnaryOp) and isinstance(e.op, ast.Not))):
             return NotImplemented
+        # the already-escaped scan held by a module-level predicate H(<input>): its True outcome is the normal exit of
+        # the token loop inside H (R5 decides what that requires), its False outcome says nothing
+        h = _scan_helper(self.fa.ev.p, self.enc, e, self.up)
+        if h is not None and _scan_true_after_loop(self.fa.ev.p, h):
+            return (state[0], state[1], True) if truth else state
         # a test that is not read: remember it if it is about the input
         names = {x.id for x in ast.walk(e) if isinstance(x, ast.Name)}
         if names & ({self.up} | set(self.defs) | self.derived):
@@ -1508,27 +1562,169 @@ def _decode_args(call: ast.Call):
 
 
 def _check_decode_path(run, f: Func, klen: int) -> Optional[ast.For]:
-    """The token loop of one decoder path; returns the loop (None if f has none)."""
+    """The token loop(s) of one decoder path; returns the (first) loop (None if f has none).  A path may hold more
+    than one loop with a table lookup (an optimistic pass with the try hoisted out of the loop, then the careful one):
+    each is read on its own, and `_exactly_once` decides on the paths that every token is emitted once."""
     p = run.project
     parent = enclosing_map(f.node)
     lookups = [n for n in walk_self(f.node) if isinstance(n, ast.Subscript) and isinstance(n.ctx, ast.Load)
                and p.resolve_expr(f.module, n.value, f) == URI + '._HEX_TO_BYTE']
     if not lookups:
         return None
-    lk = single(lookups, '_HEX_TO_BYTE lookup', f.qual)
     cfg = cfg_of(f, p)
     run.use_cfg(cfg)
+    infos = [_check_one_lookup(run, f, klen, lk, cfg, parent) for lk in lookups]
+    _exactly_once(run, f, cfg, infos)
+    return infos[0]['loop']
+
+
+def _catches_key_error(p, f: Func, h: ast.ExceptHandler) -> bool:
+    types = [] if h.type is None else (h.type.elts if isinstance(h.type, ast.Tuple) else [h.type])
+    quals = [p.resolve_expr(f.module, t, f) for t in types]
+    return h.type is None or any(q in ('builtins.KeyError', 'builtins.LookupError', 'builtins.Exception', 'builtins.BaseException') for q in quals)
+
+
+def _exactly_once(run, f: Func, cfg, infos):
+    """On every path from the entry to a return of the decoded accumulator each token has been emitted exactly once:
+    the accumulator is in one of the states
+        unset | init (holds the text before the first %) | pass (a loop over the tokens is under way, begun from init)
+        | full (such a loop ended normally) | dirty (a loop was left early -- exception to a handler outside it, break --
+        or was begun on an accumulator that was not freshly initialised);
+    a (re-)initialising assignment gives init; beginning a pass from full / dirty duplicates what is already there; the
+    value returned must be full.  So a fallback loop that starts over after an optimistic one failed half-way needs
+    the accumulator re-bound first.
+    W: decode('a%20b%20c%20d%20e%20f%20g%20h=100%') == 'a b c d e f g h=100 b c d e f g h=100%'."""
+    accs = {i['acc'] for i in infos}
+    toks = {i['toks'] for i in infos}
+    if len(accs) != 1 or len(toks) != 1:
+        raise UnknownIdiom('%s: the token loops use different accumulators / token lists (%s; %s)' % (f.qual, sorted(accs), sorted(toks)))
+    acc = next(iter(accs))
+    loops = {id(i['loop']): i['loop'] for i in infos}
+    init_stmts = {id(s) for i in infos for s in i['inits']}
+    from .common import nodes_within
+    loop_nodes = {k: nodes_within(cfg, [lp]) for k, lp in loops.items()}
+    iter_of = {}
+    for k, lp in loops.items():
+        for i in cfg.nodes_for(lp):
+            if cfg.node(i).kind == 'iter':
+                iter_of[i] = k
+    in_loop = {}
+    for k, ids in loop_nodes.items():
+        for i in ids:
+            in_loop.setdefault(i, set()).add(k)
+    # everything else that changes the accumulator is outside what is read here
+    for n in cfg.live_nodes():
+        if n.copy or n.id in in_loop:
+            continue
+        a = n.ast if n.kind == 'stmt' else None
+        if a is None:
+            continue
+        if id(a) in init_stmts:
+            continue
+        em = _emission(a)
+        writes = (em is not None and em[1] == acc) or any(
+            isinstance(x, ast.Name) and x.id == acc and isinstance(x.ctx, (ast.Store, ast.Del)) for x in ast.walk(a)) or any(
+            isinstance(x, ast.Call) and isinstance(x.func, ast.Attribute) and x.func.attr in _IN_PLACE and isinstance(x.func.value, ast.Name)
+            and x.func.value.id == acc for x in ast.walk(a)) or any(
+            isinstance(x, (ast.Subscript, ast.Attribute)) and isinstance(x.ctx, (ast.Store, ast.Del)) and _base_name(x) == acc for x in ast.walk(a))
+        plain = isinstance(a, (ast.Assign, ast.AnnAssign)) and all(isinstance(t, ast.Name) for t in (a.targets if isinstance(a, ast.Assign) else [a.target]))
+        if writes and not plain:      # a plain re-binding that is not a validated initialisation leaves the state `unset`
+            raise UnknownIdiom('%s: the accumulator %s is also changed by %s' % (f.qual, acc, short(a, 80)))
+
+    def binds_acc(n) -> Optional[str]:
+        a = n.ast if n.kind == 'stmt' else None
+        if isinstance(a, (ast.Assign, ast.AnnAssign)) and any(isinstance(t, ast.Name) and t.id == acc
+                                                             for t in (a.targets if isinstance(a, ast.Assign) else [a.target])):
+            return 'init' if id(a) in init_stmts else 'unset'
+        return None
+
+    start = (cfg.entry, 'unset')
+    prev = {start: None}
+    work = [start]
+    problems = []     # (key, kind)
+    unread = None
+    while work:
+        key = work.pop(0)
+        nid, st = key
+        n = cfg.node(nid)
+        if n.kind == 'stmt' and isinstance(n.ast, ast.Return) and n.ast.value is not None \
+                and any(isinstance(x, ast.Name) and x.id == acc for x in ast.walk(n.ast.value)):
+            if st in ('dirty', 'pass'):
+                problems.append((key, 'return'))
+            elif st != 'full':
+                unread = n
+        for (b, l) in cfg.succ.get(nid, ()):
+            st2 = st
+            if l != 'exc':
+                bound = binds_acc(n)
+                if bound is not None and not (in_loop.get(nid)):
+                    st2 = bound
+            if nid in iter_of:
+                if l == 'next':
+                    if st in ('full', 'dirty'):
+                        problems.append((key, 'pass'))
+                        st2 = 'dirty'
+                    elif st in ('init', 'pass'):
+                        st2 = 'pass'
+                    else:
+                        st2 = 'dirty'
+                elif l == 'done':
+                    st2 = 'full' if st in ('init', 'pass', 'full') else st
+            elif st == 'pass' and in_loop.get(nid) and not (in_loop.get(nid) & in_loop.get(b, set())) and b not in iter_of:
+                st2 = 'dirty'      # the pass was left before its end
+            k2 = (b, st2)
+            if k2 not in prev:
+                prev[k2] = key
+                work.append(k2)
+
+    def trace(key):
+        path = []
+        while key is not None:
+            path.append(key[0])
+            key = prev[key]
+        return list(reversed(path))
+
+    what = ('each token is emitted into the accumulator exactly once on every path to the return: a pass over the tokens starts from a freshly '
+            'initialised accumulator, and what is returned went through one complete pass')
+    rw = "decode('a%20b%20c%20d%20e%20f%20g%20h=100%') == 'a b c d e f g h=100 b c d e f g h=100%' (the prefix decoded before the malformed escape twice)"
+    reported = set()
+    if any(kind == 'pass' for _k, kind in problems):
+        problems = [(k, kind) for k, kind in problems if kind == 'pass']     # the returns behind it only repeat the finding
+    for key, kind in problems:
+        n = cfg.node(key[0])
+        cons = n.stmt.iter if kind == 'pass' else n.ast
+        tag = (kind, id(cons))
+        if tag in reported:
+            continue
+        reported.add(tag)
+        path = trace(key)
+        wit = ['the accumulator %s is %s here' % (acc, {'full': 'already complete', 'dirty': 'partly filled by a pass that was left early',
+                                                     'pass': 'in the middle of a pass'}[key[1]])] + flow.describe_path(cfg, path)[-12:]
+        run.fail(what, f, cons, where='%s:%s' % (f.file, n.lineno), witness=wit, runtime_witness=rw)
+    if not problems:
+        if unread is not None:
+            raise UnknownIdiom('%s: %s is returned on a path without a complete pass over the tokens: %s' % (f.qual, acc, short(unread.ast, 60)))
+        run.ok(what, f.loc(), '%s: %d token loop(s)' % (f.qual, len(loops)))
+
+
+def _check_one_lookup(run, f: Func, klen: int, lk, cfg, parent) -> dict:
+    p = run.project
     # enclosing statement, try, loop
     stmt = lk
     while not isinstance(stmt, ast.stmt):
         stmt = parent[id(stmt)]
-    loop = try_ = None
+    loop = try_ = outer_try = None
     cur = parent.get(id(stmt))
+    prev_node = stmt
     while cur is not None and cur is not f.node:
         if isinstance(cur, ast.Try) and try_ is None and loop is None and any(stmt is s or any(x is stmt for x in ast.walk(s)) for s in cur.body):
             try_ = cur
+        if isinstance(cur, ast.Try) and loop is not None and try_ is None and outer_try is None \
+                and any(s is prev_node for s in cur.body) and any(_catches_key_error(p, f, h) for h in cur.handlers):
+            outer_try = cur
         if isinstance(cur, ast.For) and loop is None:
             loop = cur
+        prev_node = cur
         cur = parent.get(id(cur))
     if loop is None or not isinstance(loop.target, ast.Name):
         raise UnknownIdiom('%s: the _HEX_TO_BYTE lookup is not inside a token loop' % f.qual)
@@ -1580,16 +1776,16 @@ def _check_decode_path(run, f: Func, klen: int) -> Optional[ast.For]:
                   where=where, runtime_witness="decode('%41BC') drops or repeats a character")
 
     # 3. KeyError fallback re-emits '%' + token on the same accumulator
-    if try_ is None:
+    if try_ is None and outer_try is not None:
+        # the try is hoisted out of the loop: a malformed escape ends this pass and control goes to the handler; what
+        # happens to the tokens then (start over on a re-initialised accumulator) is decided by _exactly_once
+        run.ok('a malformed escape ends the optimistic pass in a KeyError arm outside the loop (the tokens are read again from there)',
+               f.loc(outer_try), stmt)
+    elif try_ is None:
         run.fail('a malformed escape stays literal (the lookup is not inside try/except KeyError)', f, stmt, where=where,
                  runtime_witness="decode('%zz') raises KeyError")
     else:
-        arms = []
-        for h in try_.handlers:
-            types = [] if h.type is None else (h.type.elts if isinstance(h.type, ast.Tuple) else [h.type])
-            quals = [p.resolve_expr(f.module, t, f) for t in types]
-            if h.type is None or any(q in ('builtins.KeyError', 'builtins.LookupError', 'builtins.Exception', 'builtins.BaseException') for q in quals):
-                arms.append(h)
+        arms = [h for h in try_.handlers if _catches_key_error(p, f, h)]
         if not arms:
             run.fail('a malformed escape stays literal (no except arm catches KeyError)', f, stmt, where=where,
                      runtime_witness="decode('%zz') raises KeyError")
@@ -1625,13 +1821,17 @@ def _check_decode_path(run, f: Func, klen: int) -> Optional[ast.For]:
                        and isinstance(a0.value, ast.Constant) and a0.value.value is False
                        and len(inits) == 1 and isinstance(inits[0][1], ast.Constant) and inits[0][1].value is True
                        and not any(x is inits[0][0] for x in ast.walk(loop)))
+        elif _assignments(f.node, it.id):
+            # a local (an iterator over the tokens, a copy ...): which tokens it still yields is not read here
+            raise UnknownIdiom('%s: token loop over the local %s' % (f.qual, it.id))
         else:
             skip_ok = False
     if toks is None or skip_ok is None:
         raise UnknownIdiom('%s: token loop header %s' % (f.qual, short(it, 60)))
     run.check(skip_ok, 'the loop treats every token except the first as the text after a %', f, it, where=f.loc(loop),
               runtime_witness="decode('41%41') != '41A'")
-    outside = [(s, v) for s, v in _assignments(f.node, acc) if not any(x is s for x in ast.walk(loop))]
+    # (re-)initialisations: bindings of the accumulator outside this loop; the emissions of a sibling pass are not bindings
+    outside = [(s, v) for s, v in _assignments(f.node, acc) if not any(x is s for x in ast.walk(loop)) and _emission(s) is None]
     it_ids = [i for i in cfg.nodes_for(loop) if cfg.node(i).kind == 'iter']
     def_nodes = {id(s): cfg.nodes_for(s) for s, _ in outside}
     all_def_ids = {i for ids in def_nodes.values() for i in ids}
@@ -1651,6 +1851,12 @@ def _check_decode_path(run, f: Func, klen: int) -> Optional[ast.For]:
                 isinstance(core, ast.List) and len(core.elts) == 1 and _index0(core.elts[0], toks))
         else:
             first_ok = _index0(core, toks)
+        shared = isinstance(core, ast.Name) and p.resolve_expr(f.module, core, f) is not None    # a module-level object: not the first token
+        if not first_ok and not shared and not (isinstance(core, (ast.Constant, ast.List, ast.Tuple)) or (
+                isinstance(core, ast.Subscript) and isinstance(core.value, ast.Name) and core.value.id == toks)
+                or (isinstance(core, ast.Call) and isinstance(core.func, ast.Name) and core.func.id in ('bytearray', 'bytes', 'list') and not core.args)):
+            # neither a subscript of the token list nor a literal / empty container: how the first token gets there is not read
+            raise UnknownIdiom('%s: initial value %s of the accumulator %s' % (f.qual, short(iv, 60), acc))
         run.check(bool(first_ok), 'the text before the first % is copied verbatim', f, init_stmt, where=f.loc(init_stmt),
                   runtime_witness="decode('ab%41') != 'abA'")
 
@@ -1672,7 +1878,7 @@ def _check_decode_path(run, f: Func, klen: int) -> Optional[ast.For]:
         codec, errors = _decode_args(v)
         run.check(codec in UTF8 and errors == 'replace', "the collected bytes are read as UTF-8 with errors='replace' (never fails)", f, v,
                   where='%s:%s' % (f.file, r.lineno), runtime_witness="decode('%ff') raises UnicodeDecodeError or drops the byte")
-    return loop
+    return {'loop': loop, 'acc': acc, 'toks': toks, 'inits': [s for s, _v in inits], 'lookup': lk}
 
 
 def _index0(e, toks: str) -> bool:
@@ -2154,7 +2360,55 @@ def _binds(n, names: Set[str]) -> bool:
     return any(isinstance(x, ast.Name) and x.id in names and isinstance(x.ctx, (ast.Store, ast.Del)) for x in n.walk())
 
 
-def _slice_class_tests(run, fa, enc: Func, cfg, is_check) -> bool:
+def _const_bool(e) -> Optional[bool]:
+    return e.value if isinstance(e, ast.Constant) and isinstance(e.value, bool) else None
+
+
+def _scan_helper(p, enc: Func, e, up: str) -> Optional[Func]:
+    """`e` is a call H(<input>) of a plain module-level predicate that holds the already-escaped scan: one
+    parameter, every return is the constant True or False, and it splits its parameter at '%'.  The encoder's test
+    `if H(uri):` is then read through H: its True outcome is what leaving the token loop normally is in the inline
+    form, its False outcome what `break` is (R5 decides inside H what True requires)."""
+    if not (isinstance(e, ast.Call) and len(e.args) == 1 and not e.keywords and isinstance(e.args[0], ast.Name) and e.args[0].id == up):
+        return None
+    h = p.resolve_callable(enc, e.func)
+    if not isinstance(h, Func) or h.cls is not None or h.parent is not None or h.is_async or h.decorators:
+        return None
+    a = h.node.args
+    if len(a.args) + len(a.posonlyargs) != 1 or a.vararg or a.kwarg or a.kwonlyargs:
+        return None
+    sup = h.params()[0]
+    if any(isinstance(x, ast.Name) and x.id == sup and isinstance(x.ctx, (ast.Store, ast.Del)) for x in ast.walk(h.node)):
+        return None
+    rets = [x for x in walk_no_nested(h.node) if isinstance(x, ast.Return)]
+    if not rets or any(x.value is None or _const_bool(x.value) is None for x in rets):
+        return None
+    if any(isinstance(x, (ast.Yield, ast.YieldFrom, ast.Global, ast.Nonlocal)) for x in ast.walk(h.node)):
+        return None
+    if not any(isinstance(x, ast.Call) and isinstance(x.func, ast.Attribute) and x.func.attr == 'split' and isinstance(x.func.value, ast.Name)
+               and x.func.value.id == sup and len(x.args) == 1 and isinstance(x.args[0], ast.Constant) and x.args[0].value == '%'
+               for x in ast.walk(h.node)):
+        return None
+    return h
+
+
+def _scan_true_after_loop(p, h: Func) -> bool:
+    """every `return True` of the scan helper lies behind the normal exit of a loop over the tokens of its parameter"""
+    sup = h.params()[0]
+    cfg = cfg_of(h, p)
+    done = []
+    for n in cfg.live_nodes():
+        if n.kind == 'iter' and isinstance(n.stmt, ast.For):
+            it = n.stmt.iter.value if isinstance(n.stmt.iter, ast.Subscript) else n.stmt.iter
+            base = _expand(h, it)
+            if isinstance(base, ast.Call) and isinstance(base.func, ast.Attribute) and base.func.attr == 'split' \
+                    and isinstance(base.func.value, ast.Name) and base.func.value.id == sup:
+                done += flow.edges_out(cfg, n.id, 'done')
+    trues = [n for n in cfg.live_nodes() if n.kind == 'stmt' and isinstance(n.ast, ast.Return) and _const_bool(n.ast.value) is True]
+    return bool(trues) and all(any(flow.dominated_by_edge(cfg, n.id, e) for e in done) for n in trues)
+
+
+def _slice_class_tests(run, fa, enc: Func, cfg, in_heuristic) -> bool:
     """Frozen look-alike: a membership test with a slice on the left and a
     string (a character class) on the right, inside the escape check.
     Reports it unless the slice is provably non-empty; True when it fired."""
@@ -2179,7 +2433,7 @@ def _slice_class_tests(run, fa, enc: Func, cfg, is_check) -> bool:
             left = expand(cmp_.left)
             if not (isinstance(left, ast.Subscript) and isinstance(left.slice, ast.Slice)):
                 continue
-            if _guard_verdict(cfg, n.id, is_check, True)[0] != 'proved':
+            if not in_heuristic(n.id):
                 continue   # not part of the already-escaped heuristic
             hv = fa.ev.expr(cmp_.comparators[0], dict(fa.env))
             if isinstance(hv, (set, frozenset, tuple, list, dict)):
@@ -2274,6 +2528,35 @@ def r5_check_escaped(run):
     def is_check(e):
         return isinstance(e, ast.Name) and e.id == fa.p_check
 
+    # where the scan lives: in the encoder itself, or in a module-level predicate H(<input>) the encoder tests
+    # (`if H(uri): return uri`): then H is read in place of the inline loop -- `return True` for leaving the loop
+    # normally, `return False` for `break` -- and the encoder's test of H(uri) carries the outcome.
+    outer_enc, outer_cfg, outer_up = enc, cfg, up
+    scan_tests = []
+    for t in cfg.live_nodes():
+        if t.kind == 'test' and not t.copy:
+            for c in walk_self(t.ast):
+                h = _scan_helper(p, enc, c, up)
+                if h is not None:
+                    core, pol = t.ast, True
+                    while isinstance(core, ast.UnaryOp) and isinstance(core.op, ast.Not):
+                        core, pol = core.operand, not pol
+                    if core is not c:
+                        raise UnknownIdiom('%s: the outcome of %s is combined with other conditions in %s' % (enc.qual, short(c, 40), short(t.ast, 80)))
+                    scan_tests.append((t, h, pol))
+    scan = None
+    if scan_tests:
+        if len(scan_tests) != 1 or any(isinstance(n, ast.For) for n in walk_self(enc.node)):
+            raise UnknownIdiom('%s: more than one place holds the escape scan' % enc.qual)
+        scan = scan_tests[0]
+        enc = scan[1]
+        cfg = cfg_of(enc, p)
+        run.use_cfg(cfg)
+        up = enc.params()[0]
+
+    def in_heuristic(nid):
+        return scan is not None or _guard_verdict(cfg, nid, is_check, True)[0] == 'proved'
+
     loops = []
     for n in walk_self(enc.node):
         if isinstance(n, ast.For) and isinstance(n.target, ast.Name):
@@ -2286,7 +2569,7 @@ def r5_check_escaped(run):
                     loops.append(n)
     # frozen look-alike table, part 1 (decided before the loop shape is looked at, so that it is
     # reported whatever the loop looks like: for over tokens, while/find scan, ...)
-    lookalike_fired = _slice_class_tests(run, fa, enc, cfg, is_check)
+    lookalike_fired = _slice_class_tests(run, fa, enc, cfg, in_heuristic)
     if lookalike_fired and len(loops) != 1:
         return
     loop = single(loops, "loop over the '%'-separated tokens", enc.qual)
@@ -2311,19 +2594,40 @@ def r5_check_escaped(run):
 
     # accept returns: pass-through returns guarded by check_is_escaped
     accept, encoded = [], []
-    for n in cfg.live_nodes():
+    outer_accept, outer_encoded = [], []
+    for n in outer_cfg.live_nodes():
         if n.kind == 'stmt' and isinstance(n.ast, ast.Return):
             v = n.ast.value
-            if isinstance(v, ast.Name) and v.id == up:
-                verdict, tn = _guard_verdict(cfg, n.id, is_check, True)
+            if isinstance(v, ast.Name) and v.id == outer_up:
+                verdict, tn = _guard_verdict(outer_cfg, n.id, is_check, True)
                 if verdict == 'proved':
-                    accept.append(n)
-            elif _keeps_percent(fa, enc, up, v) and _guard_verdict(cfg, n.id, is_check, True)[0] == 'proved':
-                accept.append(n)     # existing escapes are left alone here, too
+                    outer_accept.append(n)
+            elif _keeps_percent(fa, outer_enc, outer_up, v) and _guard_verdict(outer_cfg, n.id, is_check, True)[0] == 'proved':
+                outer_accept.append(n)     # existing escapes are left alone here, too
             else:
-                encoded.append(n)
-    if not accept:
-        raise AnchorError('%s: no already-escaped shortcut' % enc.qual)
+                outer_encoded.append(n)
+    if not outer_accept:
+        raise AnchorError('%s: no already-escaped shortcut' % outer_enc.qual)
+    if scan is None:
+        accept, encoded = outer_accept, outer_encoded
+    else:
+        # inside the predicate: `return True` accepts, `return False` is what `break` is in the inline form
+        for n in cfg.live_nodes():
+            if n.kind == 'stmt' and isinstance(n.ast, ast.Return):
+                (accept if _const_bool(n.ast.value) is True else encoded).append(n)
+        if not accept:
+            raise AnchorError('%s never returns True' % enc.qual)
+        tnode, _h, pol = scan
+        yes = flow.edges_out(outer_cfg, tnode.id, 'T' if pol else 'F')
+        no = flow.edges_out(outer_cfg, tnode.id, 'F' if pol else 'T')
+        for n in outer_accept:
+            run.check(any(flow.dominated_by_edge(outer_cfg, n.id, e) for e in yes),
+                      'the input is accepted as already escaped only where %s(...) said so' % enc.name, outer_enc, n.ast,
+                      where='%s:%s' % (outer_enc.file, n.lineno), runtime_witness="encode_check_escaped('%20%zz') is returned unchanged")
+        bad = flow.find_path(outer_cfg, [b for (_a, b, _l) in no], [n.id for n in outer_accept], edge_filter=flow.no_exc)
+        run.check(bad is None, 'a malformed escape makes the encoder fall through to full encoding', outer_enc, tnode.ast,
+                  where='%s:%s' % (outer_enc.file, tnode.lineno), witness=flow.describe_path(outer_cfg, bad) if bad else None,
+                  runtime_witness="encode_check_escaped('100% x') keeps the bare %")
     for n in accept:
         run.check(any(flow.dominated_by_edge(cfg, n.id, e) for e in done_edges),
                   'the input is accepted as already escaped only after the loop examined every token without breaking', enc, n.ast,
@@ -2344,6 +2648,14 @@ def r5_check_escaped(run):
         return _slice_of(p, enc, e, tok) in ((None, 2), (0, 2))
 
     hexsets = []
+    octsets = []
+
+    def octet_set(r) -> frozenset:
+        """the folded right operand of `token[:2] in <set>`: a collection of strings (anything else cannot be read)"""
+        hv = fa.ev.expr(r, dict(fa.env))
+        if not isinstance(hv, (set, frozenset, tuple, list, dict)) or not all(isinstance(x, str) for x in hv):
+            raise UnknownIdiom('%s: set of hex octets %s' % (enc.qual, short(r, 40)))
+        return frozenset(hv)
 
     def char_index(e) -> Optional[int]:
         """e denotes the i-th character after the %"""
@@ -2366,6 +2678,20 @@ def r5_check_escaped(run):
                     c = r.value
                     return {ast.Eq: lenval == c, ast.NotEq: lenval != c, ast.Lt: lenval < c, ast.LtE: lenval <= c,
                             ast.Gt: lenval > c, ast.GtE: lenval >= c}.get(type(op))
+                # token[:2] in/not in <set of strings>: one lookup that tests length and both characters at once.
+                # Whether the (at most two) characters after % can be a member follows from the folded set alone.
+                if is_octet(l) and isinstance(op, (ast.In, ast.NotIn)):
+                    hs = octet_set(r)
+                    octsets.append((r, hs))
+                    if kind == 'short':
+                        member = None if any(len(x) == lenval for x in hs) else False
+                    elif kind == 'c0':
+                        member = False if all(x[0] in HEXDIG_BOTH for x in hs if x) else None
+                    else:
+                        member = False if all(x[1] in HEXDIG_BOTH for x in hs if len(x) >= 2) else None
+                    if member is None:
+                        return None
+                    return member == isinstance(op, ast.In)
                 ci = char_index(l)
                 if ci is not None and isinstance(op, (ast.In, ast.NotIn)):
                     hv = fa.ev.expr(r, dict(fa.env)) if True else None
@@ -2389,7 +2715,10 @@ def r5_check_escaped(run):
             ci = char_index(l)
             if ci is not None and isinstance(n.ops[0], (ast.In, ast.NotIn)):
                 kinds_present.add('c%d' % ci)
-    if not kinds_present & {'c0', 'c1'}:
+            if is_octet(l) and isinstance(n.ops[0], (ast.In, ast.NotIn)):
+                octet_set(n.comparators[0])
+                kinds_present.add('octet')
+    if not kinds_present & {'c0', 'c1', 'octet'}:
         # frozen table of look-alike idioms that are NOT an exact two-hex-digit
         # test: int(x, 16) also accepts a sign, surrounding whitespace,
         # underscores and a single digit; bytes.fromhex/unhexlify skip or
@@ -2423,10 +2752,21 @@ def r5_check_escaped(run):
     for node, hv in {id(n): (n, s) for n, s in hexsets}.values():
         run.check(hv == HEXDIG_BOTH, 'escapes are recognised by hex digits of both cases, and nothing else', enc, node,
                   where=enc.loc(node), witness=['%r' % _show(hv)], runtime_witness="encode_check_escaped('%2f') or ('%2g')")
+    all_octets = frozenset(a + b for a in HEXDIG_BOTH for b in HEXDIG_BOTH)
+    for node, hs in {id(n): (n, s) for n, s in octsets}.values():
+        run.check(hs == all_octets, 'escapes are recognised by exactly the 22 x 22 two-character strings over the hex digits of both cases', enc, node,
+                  where=enc.loc(node), witness=['missing: %s' % sorted(all_octets - hs)[:6], 'extra: %s' % sorted(hs - all_octets)[:6]],
+                  runtime_witness="encode_check_escaped('%2f') or ('%2g')")
 
     # a break falls through to full encoding
     brks = [n for n in cfg.live_nodes() if n.kind == 'stmt' and isinstance(n.ast, ast.Break) and any(x is n.ast for x in ast.walk(loop))]
-    if not brks:
+    if scan is not None:
+        rejects = [n for n in encoded if any(x is n.ast for x in ast.walk(loop))]
+        for n in rejects:
+            run.ok('a malformed escape makes %s answer False' % enc.name, '%s:%s' % (enc.file, n.lineno), n.ast)
+        if not brks and not rejects:
+            raise AnchorError('%s: the escape check never rejects' % enc.qual)
+    elif not brks:
         raise AnchorError('%s: no break in the escape check' % enc.qual)
     for b in brks:
         bad = flow.find_path(cfg, [b.id], [n.id for n in cfg.live_nodes() if n.kind == 'stmt' and isinstance(n.ast, ast.Return)
@@ -2733,6 +3073,176 @@ def r6_parse_host(run):
         raise AnchorError("parse_host: no return on a path where host.startswith('[') is established")
 
 
+# ---------------------------------------------------------------------------
+# R7 a one-shot iterator bound to a local is consumed at most once
+# ---------------------------------------------------------------------------
+
+_ONE_SHOT_CALLS = ('builtins.map', 'builtins.filter', 'builtins.zip', 'builtins.iter', 'builtins.reversed', 'builtins.enumerate',
+                   're.finditer', 'itertools.chain', 'itertools.islice', 'itertools.product', 'itertools.starmap', 'itertools.takewhile',
+                   'itertools.dropwhile', 'itertools.accumulate', 'itertools.zip_longest', 'itertools.compress', 'itertools.filterfalse')
+# callables that iterate their argument to the end (all/any: until the first deciding element -- what is left is not the whole either)
+_DRAINING_CALLS = ('all', 'any', 'sum', 'min', 'max', 'list', 'tuple', 'set', 'frozenset', 'sorted', 'dict', 'bytes', 'bytearray', 'len')
+_DRAINING_METHODS = ('join', 'extend', 'update', 'writelines', 'fromkeys')
+_STEPPING_CALLS = ('next',)      # takes one element: using the iterator again is the point
+
+
+def _one_shot_expr(p, f: Func, e) -> bool:
+    if isinstance(e, ast.GeneratorExp):
+        return True
+    if isinstance(e, ast.Call):
+        q = p.resolve_expr(f.module, e.func, f)
+        return q in _ONE_SHOT_CALLS
+    return False
+
+
+def _iter_use_kind(parent, use: ast.Name) -> str:
+    """'drain' (iterated to the end / until decided), 'step' (next()), 'test' (identity / None test), 'other'"""
+    up = parent.get(id(use))
+    if isinstance(up, ast.Starred):
+        return 'drain'
+    if isinstance(up, ast.Call) and use in up.args:
+        if isinstance(up.func, ast.Name) and up.func.id in _DRAINING_CALLS:
+            return 'drain'
+        if isinstance(up.func, ast.Name) and up.func.id in _STEPPING_CALLS:
+            return 'step'
+        if isinstance(up.func, ast.Attribute) and up.func.attr in _DRAINING_METHODS:
+            return 'drain'
+        return 'other'
+    if isinstance(up, ast.comprehension) and up.iter is use:
+        return 'drain'
+    if isinstance(up, (ast.For, ast.AsyncFor)) and up.iter is use:
+        body_breaks = any(isinstance(x, (ast.Break, ast.Return)) for s in up.body for x in ast.walk(s))
+        return 'other' if body_breaks else 'drain'     # a loop left early may be resumed on purpose
+    if isinstance(up, ast.Compare) and all(isinstance(o, (ast.Is, ast.IsNot)) for o in up.ops):
+        return 'test'
+    if isinstance(up, ast.Compare) and up.left is not use and any(isinstance(o, (ast.In, ast.NotIn)) for o in up.ops):
+        return 'drain'        # `x in it` walks the iterator
+    return 'other'
+
+
+def _exclusive_arms(parent, a, b) -> bool:
+    """a and b sit in different arms of one conditional expression (never both evaluated)"""
+    def chain(x):
+        out = []
+        cur, up = x, parent.get(id(x))
+        while up is not None and not isinstance(up, ast.stmt):
+            if isinstance(up, ast.IfExp) and cur is not up.test:
+                out.append((id(up), 'body' if cur is up.body else 'orelse'))
+            cur, up = up, parent.get(id(up))
+        return dict(out)
+    ca, cb = chain(a), chain(b)
+    return any(k in cb and cb[k] != arm for k, arm in ca.items())
+
+
+def iterator_consumed_once(run, funcs) -> int:
+    """The sweep behind R7 (usable for any list of functions)."""
+    from .c09_helpers import ReachingDefs, node_defs
+    p = run.project
+    n_locals = 0
+    for f in funcs:
+        cfg = cfg_of(f, p)
+        run.use_cfg(cfg)
+        parent = enclosing_map(f.node)
+        makers = []      # (cfg node, Def) binding a local to a fresh one-shot iterator
+        for n in cfg.live_nodes():
+            if n.copy:
+                continue
+            for d in node_defs(n):
+                if d.how == 'assign' and d.value is not None and _one_shot_expr(p, f, d.value):
+                    makers.append((n, d))
+        # a nested function that reads such a local runs the iterator down on its first call
+        shot_names = {d.name for (_n, d) in makers}
+        for g in f.nested.values():
+            own = _stored_names(g.node)
+            for x in ast.walk(g.node):
+                if isinstance(x, ast.Name) and x.id in shot_names and x.id not in own and isinstance(x.ctx, ast.Load):
+                    raise UnknownIdiom('%s reads the one-shot iterator %s of %s (how often is it called?)' % (g.qual, x.id, f.qual))
+        if not makers:
+            run.ok('no local of %s is bound to a one-shot iterator (generator expression, map/filter/zip/iter/... result)' % f.qual, f.loc(), f.qual)
+            continue
+        rd = ReachingDefs(cfg)
+        uses_by_name: Dict[str, list] = {}
+        for n in cfg.live_nodes():
+            if n.copy:
+                continue
+            for x in n.walk():
+                if isinstance(x, ast.Name) and isinstance(x.ctx, ast.Load) and x.id in shot_names:
+                    uses_by_name.setdefault(x.id, []).append((n, x))
+        for mn, d in makers:
+            n_locals += 1
+            uses = [(n, x) for (n, x) in uses_by_name.get(d.name, []) if any(dd.stmt is d.stmt for dd in rd.at(n.id, d.name))]
+            kinds = [(n, x, _iter_use_kind(parent, x)) for (n, x) in uses]
+            drains = [(n, x) for (n, x, k) in kinds if k == 'drain']
+            others = [(n, x) for (n, x, k) in kinds if k == 'other']
+            redefs = {n.id for n in cfg.live_nodes() if any(dd.name == d.name for dd in node_defs(n))}
+            second = None
+            for i, (n1, x1) in enumerate(drains):
+                for (n2, x2) in drains:
+                    if x1 is x2:
+                        # the same consumer again: only round an enclosing loop that does not re-create the iterator.  A `for`
+                        # statement evaluates its iterable once: what counts is re-entering the statement after leaving it.
+                        starts = [y for (y, l) in cfg.succ[n1.id] if l != 'exc']
+                        if n1.kind == 'iter':
+                            from .common import nodes_within
+                            body = nodes_within(cfg, list(n1.stmt.body)) | {n1.id}
+                            starts = sorted({b for a in body for (b, l) in cfg.succ.get(a, ()) if l != 'exc' and b not in body})
+                        if n1.id not in redefs and flow.find_path(cfg, starts, [n1.id], avoid_nodes=redefs - {n1.id},
+                                                                  edge_filter=flow.no_exc) is not None:
+                            second = (x1, x2, 'again on the next round of the enclosing loop')
+                        continue
+                    if n1.id == n2.id:
+                        if not _exclusive_arms(parent, x1, x2) and (x1.lineno, x1.col_offset) < (x2.lineno, x2.col_offset):
+                            second = (x1, x2, 'in the same expression')
+                        continue
+                    if flow.find_path(cfg, [y for (y, l) in cfg.succ[n1.id] if l != 'exc'], [n2.id], avoid_nodes=redefs - {n2.id},
+                                      edge_filter=flow.no_exc) is not None:
+                        second = (x1, x2, 'later on a path')
+                    if second:
+                        break
+                if second:
+                    break
+            what = ('the one-shot iterator bound to `%s` is consumed at most once on every path (a generator / map / filter / zip object '
+                    'yields nothing the second time)' % d.name)
+            if second is not None:
+                c1, c2 = parent.get(id(second[0])), parent.get(id(second[1]))
+                while c1 is not None and not isinstance(c1, (ast.Call, ast.comprehension, ast.For, ast.Compare, ast.Starred)):
+                    c1 = parent.get(id(c1))
+                while c2 is not None and not isinstance(c2, (ast.Call, ast.comprehension, ast.For, ast.Compare, ast.Starred)):
+                    c2 = parent.get(id(c2))
+                run.fail(what, f, d.stmt, where=f.loc(d.stmt),
+                         witness=['first consumer: %s' % short(c1 if c1 is not None else second[0], 80),
+                                  'second consumer (%s): %s -- sees the iterator exhausted' % (second[2], short(c2 if c2 is not None else second[1], 80))],
+                         runtime_witness="encode_check_escaped('http://example.com/sale/50%off') is returned unchanged: the second test runs over nothing")
+                continue
+            if others and (drains or len(others) > 1):
+                raise UnknownIdiom('%s: the one-shot iterator %s is also used in %s (does that consume it?)' % (
+                    f.qual, d.name, short(parent.get(id(others[0][1])), 80)))
+            run.ok(what, f.loc(d.stmt), d.stmt)
+    return n_locals
+
+
+def r7_one_shot_iterators(run):
+    """A generator expression or a map / filter / zip / iter / reversed / enumerate result bound to a local can be run
+    through ONCE.  In every function of falcon.util.uri (nested ones included): for each such binding, no path leads
+    from one consumer that iterates it (all/any/sum/min/max/list/tuple/set/sorted/dict/''.join/extend/update, a
+    comprehension, a for loop that is not left early, `in`, *-unpacking) to a second one without the local being
+    re-bound in between; two consumers in one expression count unless they sit in different arms of a conditional
+    expression; next() steps are free.  Another kind of use next to a consumer is an idiom the rule does not read.
+    W: hex_octets = (t[:2] for t in ...); all(len(o) == 2 for o in hex_octets) and not ''.join(hex_octets).rstrip(HEX)
+    -- the join sees nothing, every two-character pair passes as an escape."""
+    p = run.project
+    m = p.module(URI)
+    funcs = []
+    stack = [m.functions[k] for k in sorted(m.functions)]
+    while stack:
+        g = stack.pop(0)
+        funcs.append(g)
+        stack.extend(g.nested[k] for k in sorted(g.nested))
+    if len(funcs) < 8:
+        raise AnchorError('%s: only %d functions found' % (URI, len(funcs)))
+    iterator_consumed_once(run, funcs)
+
+
 def check(run):
     run.assume('the pure-Python reference falcon/util/uri.py is what is decided; falcon/cyutil/uri.pyx is not analysed')
     run.assume('tables are computed from the source by a constant evaluator (str/bytes/int/dict expressions, loops and comprehensions over constants); '
@@ -2746,3 +3256,5 @@ def check(run):
     run.rule('R5', _safe(r5_check_escaped), 'check-escaped loop: for/else acceptance, hex digits, fall-through; no character-class test on a possibly empty slice', floor=8)
     run.rule('R6', _safe(r6_parse_host), 'parse_host return shapes; brackets stripped on every path where host.startswith("[") is not excluded, and only there; '
              'the host returned is the parameter or a contiguous piece of it on every branch (no case folding / stripping / decoding)', floor=12)
+    run.rule('R7', _safe(r7_one_shot_iterators), 'a one-shot iterator (generator expression, map/filter/zip/iter result) bound to a local is consumed at most '
+             'once on every path (every function of falcon.util.uri)', floor=8)
